@@ -118,6 +118,14 @@ func timerGen(c *Ctx) {
 	put := func(fam string, wantC, tima, tma, tac int, ops []tmOp) {
 		// the first two events enable TAC and end that cycle
 		all := append([]tmOp{{"wc", tac}, {"t", 0}}, ops...)
+		// TAC has three bits: whatever is written to the other five must not matter (a program stops the timer with
+		// ReadTAC() &^ 4, which is F9 or so)
+		hi := rand.New(rand.NewSource(int64(n)))
+		for i := range all {
+			if all[i].k == "wc" && hi.Intn(2) == 0 {
+				all[i].v |= []int{0xf8, 0x08, 0x80, 0x40, 0x10, 0xa8}[hi.Intn(6)]
+			}
+		}
 		w.Put(timerExec(fmt.Sprintf("tm-%s-%d", fam, n), (wantC+65536-4)%65536, tima, tma, all))
 		n++
 	}
